@@ -1,7 +1,13 @@
-"""C10 -- the model catalogue equals what endpoints last reported (Registry.tla, GlobLookup.tla)."""
+"""C10 -- the model catalogue equals what endpoints last reported.
+
+Part "catalogue": spec/Registry.tla (+ RegistryGen.tla random walks, RegistryTrace.tla), harness
+harness/c10disc (test, package internal/adapter/discovery) + harness/c10reg (quiescence probe, package
+internal/adapter/registry).  Part "filter": spec/Glob.tla + GlobLookup.tla (+ GlobLookupTrace.tla),
+harness/c10flt (package internal/adapter/filter)."""
 
 
 def _rgen(**kw):
+    """exhaustive: every operation sequence of length MaxLen"""
     p = {"Eps": '{"e1", "e2"}', "MaxLen": 2, "Listings": "ListingsQuick", "BadLists": "BadQuick",
          "FailKinds": "FailQuick", "Filters": "FiltersNone", "FailBodies": "BodiesOne", "Conc": "FALSE"}
     p.update(kw)
@@ -9,6 +15,8 @@ def _rgen(**kw):
 
 
 def _rsim(num, depth, **kw):
+    """seeded random walks over the full alphabet: 3 endpoints, all listings / failure kinds / filters,
+    bursts and concurrent steps"""
     p = {"Eps": '{"e1", "e2", "e3"}', "MaxLen": depth, "Listings": "ListingsAll", "BadLists": "BadAll",
          "FailKinds": "FailAll", "Filters": "FiltersAll", "FailBodies": "BodiesTwo", "Conc": "TRUE"}
     p.update(kw)
@@ -17,8 +25,14 @@ def _rsim(num, depth, **kw):
 
 
 def _nontrivial(s):
+    """a catalogue scenario is non-trivial if some endpoint is updated at least twice or an update is
+    rejected / fails / the endpoint is removed after something was registered"""
     names = [o[0] for o in s.get("ops", [])]
-    return any(n in ("Bad", "Fail", "Rm") for n in names) and "Reg" in names
+    return ("Reg" in names or "Burst" in names or "Par" in names) and \
+        (len(names) >= 2) and any(n in ("Bad", "Fail", "Rm", "Burst", "Par") or names.count("Reg") >= 2 for n in names)
+
+
+_E3 = '{"e1", "e2", "e3"}'
 
 
 def register(PROPS, HARNESS_PKGS):
@@ -26,9 +40,37 @@ def register(PROPS, HARNESS_PKGS):
     HARNESS_PKGS["c10disc"] = "internal/adapter/discovery"
     HARNESS_PKGS["c10flt"] = "internal/adapter/filter"
     PROPS["C10"] = {
-        "rule": "TBD",
+        "rule": "catalogue: TLC enumerates every sequence of N operations {successful listing, rejected list "
+                "(nameless entry), failed discovery (500/404/203/204/unparsable/truncated/connection cut), removal} "
+                "over 2 endpoints (quick N=2, thorough N=3 and a sample of N=4; also 3 endpoints and per-endpoint "
+                "filters) plus seeded random walks (quick 2500 x 4 steps, thorough 20000 x 6 + 4000 x 10) over 3 "
+                "endpoints, all listings of <= 2 entries over {m@d1, m@d2, m, M, x::y, p*}, 5 filter configurations, "
+                "bursts (two listings of one endpoint back to back) and concurrent steps on distinct endpoints.  Each "
+                "scenario runs on the real registry (registry.NewModelRegistry, unified AND plain) through the real "
+                "discovery service + HTTP client + profile parsers + glob filter against scripted listings; after "
+                "every operation, once all asynchronous merges have run, GetModelsForEndpoint, GetEndpointsForModel, "
+                "IsModelAvailable, GetUnifiedModels and GetStats are dumped and compared with the reference "
+                "attribution by RegistryTrace.  filter: TLC emits permutations of a whole universe names x "
+                "include/exclude configurations (quick 980, thorough 4410 lookups per permutation); all lookups run "
+                "on ONE GlobFilter and every answer must equal Glob!Passes(name, patterns).  Non-trivial = an "
+                "endpoint is updated again, removed, or an update fails / is rejected after something was registered.",
         "exhaustive": False,
-        "assumptions": [],
+        "assumptions": [
+            "success/failure of an update is defined by the environment (HTTP 200 + parsable listing = success), not "
+            "by the value DiscoverEndpoint returns",
+            "quiescence is established exactly, not by timing: a counting delegate around the unifier (harness/c10reg) "
+            "tells when the n-th merge goroutine has run, then unificationMutex is taken once",
+            "names that differ only in letter case: lookups are bounded (exact-name endpoints <= answer <= "
+            "case-folded endpoints) because the unified catalogue deliberately merges them and the property is silent",
+            "filter answers are only generated for (name, pattern) pairs whose result does not depend on case folding "
+            "(checked by an ASSUME / invariant CaseFree); an explicit empty include+exclude configuration is never "
+            "generated (documentation and code disagree on it)",
+            "repetitions of one name inside a listing: the per-endpoint count may be anything between the number of "
+            "distinct names and the number of entries",
+        ],
+        "explanation": "Registry.tla is the reference catalogue: last[e] = filtered names of e's most recent successful "
+                       "listing; the four views must equal it (unified: at quiescence).  RegistryTrace replays the "
+                       "recorded operations on the reference and requires every dump to agree.",
         "parts": [
             {
                 "name": "catalogue",
@@ -36,10 +78,11 @@ def register(PROPS, HARNESS_PKGS):
                         "thorough_params": {"MaxLen": 3, "Conc": "TRUE"}}],
                 "quick": {"gen": [_rgen(), _rsim(2500, 4)]},
                 "thorough": {"gen": [_rgen(MaxLen=3),
-                                     _rgen(Eps='{"e1", "e2", "e3"}', Listings="ListingsMid", BadLists="BadAll", FailKinds="FailAll"),
+                                     _rgen(MaxLen=4),
+                                     _rgen(Eps=_E3, Listings="ListingsMid", BadLists="BadAll", FailKinds="FailAll"),
                                      _rgen(Filters="FiltersQuick"),
                                      _rsim(20000, 6), _rsim(4000, 10)],
-                             "sample": 45000},
+                             "sample": 60000},
                 "pkg": "internal/adapter/discovery", "test": "TestVerif_Catalogue",
                 "harness_dirs": ["c10disc", "c10reg"],
                 "trace": {"module": "RegistryTrace", "cfg": "Registry_trace.cfg"},
@@ -54,7 +97,8 @@ def register(PROPS, HARNESS_PKGS):
                 "quick": {"gen": [{"module": "GlobLookup", "cfg": "GlobLookup_gen.cfg",
                                    "params": {"Names": "NamesQ", "Configs": "ConfigsQ", "Strides": "{1, 11, 13}"}}]},
                 "thorough": {"gen": [{"module": "GlobLookup", "cfg": "GlobLookup_gen.cfg",
-                                      "params": {"Names": "NamesT", "Configs": "ConfigsT", "Strides": "{1, 11, 13, 17, 101}"}}]},
+                                      "params": {"Names": "NamesT", "Configs": "ConfigsT",
+                                                 "Strides": "{1, 11, 13, 17, 101}"}}]},
                 "pkg": "internal/adapter/filter", "test": "TestVerif_GlobLookup",
                 "harness_dirs": ["c10flt"],
                 "trace": {"module": "GlobLookupTrace", "cfg": "GlobLookup_trace.cfg"},
